@@ -181,6 +181,13 @@ func (c *Canonicalizer) CanonicalizeFunction(fn *ssa.Function) string {
 }
 
 func (c *Canonicalizer) AnalyzeLoops(fn *ssa.Function) {
+	// The zipper renders operands without going through CanonicalizeFunction: the
+	// package that references are written relative to has to be bound here as well,
+	// or a pooled canonicalizer keeps the package of whatever it rendered before.
+	c.pkg = nil
+	if fn.Pkg != nil {
+		c.pkg = fn.Pkg.Pkg
+	}
 	if len(fn.Blocks) == 0 {
 		return
 	}
@@ -609,6 +616,7 @@ func (c *Canonicalizer) resetConfig() {
 }
 
 func (c *Canonicalizer) resetScratch() {
+	c.pkg = nil
 	if c.registerMap != nil {
 		for k := range c.registerMap {
 			delete(c.registerMap, k)
